@@ -133,7 +133,8 @@ func body(s *simrt.Sim, tier string) {
 	secondFault := s.Choose(4, "second") == 0 // a second fault in the first recovery write
 
 	current := -1 // index into sets of the write whose Rename succeeded last
-	anyFault := false
+	anyFault, anyCrash, freshInstance := false, false, false
+	var published []string // version directories the target has pointed to, in order
 	var log []string
 	check := func(where string) {
 		fi, err := os.Lstat(target)
@@ -176,7 +177,12 @@ func body(s *simrt.Sim, tier string) {
 	for i := 0; i < nwrites; i++ {
 		s.Sleep(time.Duration(1+s.Choose(3, "gap")) * time.Nanosecond) // two Writes never read the same nanosecond (recorded assumption)
 		pending := i
-		h := &hook{s: s, faultStep: -1, check: check, renamed: func() { current = pending }}
+		h := &hook{s: s, faultStep: -1, check: check, renamed: func() {
+			current = pending
+			if p, err := os.Readlink(target); err == nil {
+				published = append(published, p)
+			}
+		}}
 		if faultsLeft > 0 && i >= faultWrite {
 			h.faultStep, h.faultKind = faultStep, faultKind
 			if i > faultWrite {
@@ -199,26 +205,49 @@ func body(s *simrt.Sim, tier string) {
 			err = d.Write(fileSets[sets[i]])
 		}()
 		simos.SetHook(nil)
-		log = append(log, fmt.Sprintf("Write #%d {%s}: fault=%q crashed=%v err=%v", i, render(fileSets[sets[i]]), h.fired, crashed, err))
+		errText := "<nil>"
+		if err != nil {
+			errText = strings.ReplaceAll(err.Error(), root, "<root>") // scratch paths differ between worker and replay
+		}
+		log = append(log, fmt.Sprintf("Write #%d {%s}: fault=%q crashed=%v err=%s", i, render(fileSets[sets[i]]), h.fired, crashed, errText))
 		s.Logf("%s", log[len(log)-1])
 		check(fmt.Sprintf("after Write #%d", i))
 		if h.fired != "" {
 			anyFault = true
 			faultsLeft--
-			// the process died (or the caller gave up after the error): only the disk survives
-			d = dir.New(dir.Options{Log: stubLog{}, Target: target})
+			if crashed || current == pending {
+				// a crash, or an error that struck after this Write had published its version (i.e. in the
+				// clean-up of the old one): what remains on disk afterwards is not judged
+				anyCrash = true
+			}
+			// after a crash only the disk survives; after a mere error return the caller may equally
+			// well carry on with the same Dir (decided by the tape)
+			if crashed || s.Choose(2, "freshAfterError") == 0 {
+				d = dir.New(dir.Options{Log: stubLog{}, Target: target})
+				freshInstance = true
+			}
 			continue
 		}
 		if h.faultStep > 0 && h.fired == "" {
 			faultsLeft-- // the chosen step does not exist in this Write: no fault
 		}
 		if err != nil {
-			s.Fail("write-failed", fmt.Sprintf("Write #%d returned %v although no fault was injected into it\n%s", i, err, strings.Join(log, "\n")))
+			s.Fail("write-failed", fmt.Sprintf("Write #%d returned an error although no fault was injected into it\n%s", i, strings.Join(log, "\n")))
 			return
 		}
 		if current != i {
 			s.Fail("write-not-published", fmt.Sprintf("Write #%d returned nil but the target does not show its file set", i))
 			return
+		}
+		if !anyCrash && !freshInstance {
+			// no crash so far and the same Dir all along (a Write may have returned an error): every version
+			// that was once published and has been superseded is gone (directories of failed attempts, never
+			// published, are not judged)
+			for _, p := range published[:len(published)-1] {
+				if _, err := os.Stat(p); err == nil && p != published[len(published)-1] {
+					s.Fail("old-versions-remain", fmt.Sprintf("after Write #%d a superseded version directory is still there: %s\n%s", i, filepath.Base(p), strings.Join(log, "\n")))
+				}
+			}
 		}
 		if !anyFault {
 			ents, _ := os.ReadDir(filepath.Join(root, "base"))
@@ -242,7 +271,7 @@ func body(s *simrt.Sim, tier string) {
 		err := d.Write(fileSets[sets[pending]])
 		simos.SetHook(nil)
 		if err != nil {
-			s.Fail("recovery-write-failed", fmt.Sprintf("after %q a fresh Dir cannot Write: %v\n%s", "a crash / error", err, strings.Join(log, "\n")))
+			s.Fail("recovery-write-failed", fmt.Sprintf("after a crash / error a fresh Dir cannot Write: %s\n%s", strings.ReplaceAll(err.Error(), root, "<root>"), strings.Join(log, "\n")))
 			return
 		}
 		check("after recovery Write")
